@@ -2,7 +2,7 @@
 import os
 import sys
 sys.path.insert(0, os.path.dirname(__file__))
-from common import TREND, BASE_ASSUMPTIONS  # noqa: E402
+from common import TREND, BASE_ASSUMPTIONS, laws1, laws2  # noqa: E402
 
 RULE = ("RollKernels2.tla (cross sums as coded vs normal-equation definitions over pairwise-complete observations, "
         "residuals explicit) and the trend family of RollKernels.tla; TLC checks NoDrift2, OutDef2, "
@@ -21,11 +21,12 @@ def run(ctx):
             timeout=900 if q else 7200, emit=False)
     binp = ctx.build("tvh-roll")
     extra = [] if q else ["--full"]
-    ctx.harness("roll2", binp, ["replay-roll2", "--in", r2["emitted"]] + extra)
-    ctx.harness("trend", binp, ["replay-roll1", "--kernels", TREND, "--in", r1["emitted"]] + extra)
+    l1, l2 = laws1(ctx), laws2(ctx)
+    ctx.harness("roll2", binp, ["replay-roll2", "--in", r2["emitted"]] + extra + l2)
+    ctx.harness("trend", binp, ["replay-roll1", "--kernels", TREND, "--in", r1["emitted"]] + extra + l1)
     if not q:
         r3 = ctx.tlc("roll2-sim", "MCRoll2", "MCRoll2_sim.cfg", sim=(3000, 9), workers=12, timeout=3000)
-        ctx.harness("roll2-sim", binp, ["replay-roll2", "--in", r3["emitted"], "--full"])
+        ctx.harness("roll2-sim", binp, ["replay-roll2", "--in", r3["emitted"], "--full"] + l2)
     n = 2 if q else 8
     for i in range(n):
         runs, steps = (3, 250) if q else (4, 1200)
